@@ -444,6 +444,7 @@ def extract(g, X):
     def getfn():
         i = filers.index("impl<'a, B, OC, SC, L> Resolve for StorageResolver")
         b = X.fn_body(filers[i:], "get")
-        shared = "true" if re.search(r"Err\(e\)\s*=>\s*Err\(\s*PdfError::Shared\s*\{", b) else "false"
+        # the error this load computed is wrapped in Shared (an optional match guard restricts it to that case)
+        shared = "true" if re.search(r"Err\(e\)\s*(?:if\s+\w+\s*)?=>\s*Err\(\s*PdfError::Shared\s*\{", b) else "false"
         return shared
     g.attempt([("get_wraps_shared", "bool")], "file.rs:StorageResolver::get", getfn)
